@@ -24,9 +24,11 @@ OTHER_FLAVOR = "SunOS"
 TYPES = ["build", "exact"]
 OTHER_TYPE = "opt"
 TOP = "foo"
-# which evaluator / brace pattern the MODEL uses: 1 = the repaired code (what the theorems are about), 0 = the pinned
-# code (only for studying the pinned defects by hand; the oracle is unaffected)
-FX = os.environ.get("C11_MODEL_FX", "1")
+# which code the MODEL follows: 2 = the repaired code including the block reader with the repair of D6
+# (proposed_fixes/C11-empty-branch; what the theorems are about), 1 = the same without that last repair (the tree
+# before the fix is committed: the matcher c11.empty_branch then absorbs the oracle failures), 0 = the pinned code
+# (1 and 0 only for studying the defects by hand; the oracle is unaffected)
+FX = os.environ.get("C11_MODEL_FX", "2")
 
 # ------------------------------------------------------------------ the documented grammar (spec side)
 
@@ -675,7 +677,8 @@ def _shrink_candidates(items):
 # ------------------------------------------------------------------ known-finding matcher
 
 def m_empty_branch(f):
-    """D6: some branch of a chain contains no executable command"""
+    """D6: some branch of a chain contains no executable command (repaired by proposed_fixes/C11-empty-branch; the
+    matcher only matters on a tree without that repair, and only while the finding is recorded as open)"""
     c = f["input"]
     return (f["kind"] in ("wrong-branch", "wrong-arguments") and c.get("stream") == "table"
             and has_empty_branch(c["ast"]))
